@@ -8,7 +8,7 @@ Sub-checks
           is a fixed point.
   cast  : for (source type S, valid lexical, target type T): 'castable as', 'cast as' and xs:T(.) agree on success
           and value; success and value follow the F&O casting table / rules (reference: xsdlex.cast_ref).
-  matrix: the complete source type x target type grid (46 x 46 cells, source literals that are valid literals of the
+  matrix: the complete source type x target type grid (44 x 44 cells, source literals that are valid literals of the
           target where possible, e.g. xs:anyURI('12') -> xs:integer): three-way agreement and table success / failure.
   decstr: xs:decimal values of tiny / huge magnitude, with python exponent representations (Decimal('1E-7'),
           Decimal('1.2E+4'), trailing zeros) and computed ones (products, round-half-to-even, casts from double) through
@@ -861,7 +861,7 @@ def jobs(tier, seed):
 
 
 MATRIX_SHARDS = 2
-EXHAUSTIVE_NOTE = ('sub-check matrix: the complete grid of 46 source types x 46 target types (casts to QName only from QName) is '
+EXHAUSTIVE_NOTE = ('sub-check matrix: the complete grid of 44 source types x 44 target types (casts to QName only from QName) is '
                    'enumerated with up to 3 source literals per cell chosen so that the string form is a valid literal of the '
                    'target where the source type allows it, x XSD 1.0/1.1; all other sub-checks are sampled')
 
